@@ -121,7 +121,14 @@ def batch(sess, suite, k, bad_pos, kind):
             sess.oracle(not v.ok, "ordinary verification accepted a signature whose recomputed commitment is -R (same x, odd Y)", [sess.records[-2][0]])
         sess.oracle(v.raw == s1.raw, "single-item batch verification disagrees with ordinary verification (%s vs %s)" % (s1.raw, v.raw), [sess.records[-2][0], sess.records[-1][0]])
         indiv &= v.ok
-    req = "batch %s items=%s tape=%s" % (suite, item_str(items), sess.tape(128 * max(1, k)))
+    tape_hex = sess.tape(128 * max(1, k))
+    if kind == "oor-blinder" and suite in ("p256", "secp256k1", "secp256k1-tr") and k >= 1:
+        # the blinder draw of the invalid item delivers a block that is not below the group order: it is discarded and
+        # redrawn (never turned into the blinder zero, which would leave that item unchecked)
+        p_ = bad_pos[0] if bad_pos else 0      # (the item at p_ was made invalid above: altered z)
+        tb = bytes.fromhex(tape_hex)
+        tape_hex = (tb[:32 * p_] + b"\xff" * 32 + tb[32 * p_:]).hex()
+    req = "batch %s items=%s tape=%s" % (suite, item_str(items), tape_hex)
     r = sess.call(req, EXACT, "batch")
     if k == 0:
         pass
@@ -165,6 +172,9 @@ def generate(sess):
             if suite == "secp256k1-tr":
                 for k in (1, 3):
                     batch(sess, suite, k, [], "mirror")
+            if suite in ("p256", "secp256k1", "secp256k1-tr"):
+                batch(sess, suite, 1, [0], "oor-blinder")
+                batch(sess, suite, 3, [rng.randrange(3)], "oor-blinder")
             for kind in (kinds if thorough else rng.sample(kinds, 3)):
                 k = rng.randrange(2, 6)
                 batch(sess, suite, k, rng.sample(range(k), 2 if kind.startswith("pair") else 1), kind)
